@@ -193,3 +193,7 @@ func Stub(name string) {}
 // Or / And / Ite combine conditions without creating branches (one solver term instead of forked paths).
 func Or(a, b bool) bool  { return a || b }
 func And(a, b bool) bool { return a && b }
+
+// SetStepBudget: under gosym, executing more than n further SSA instructions on a path is a violation with message msg
+// (bounded non-termination check); n == 0 clears the budget. Natively a no-op: the replay of such a violation is a hang.
+func SetStepBudget(n uint64, msg string) {}
